@@ -1308,7 +1308,8 @@ impl Run {
                 let h = self.ctx.new_handle();
                 self.gated("g9", "current_missing", false, Job::Open(h), |r| {
                     r.seq_open();
-                    for _ in 0..4 {
+                    // (with the small memtable: enough to have a table flushed and recorded)
+                    for _ in 0..8 {
                         r.probe_all();
                     }
                     r.listing();
